@@ -268,6 +268,11 @@ func (c *Ctx) Report(key, what, replayPath string) {
 	for _, kf := range LoadKnown() {
 		if kf.Property == c.ID && kf.Status == "known" && kf.Key == key {
 			line := fmt.Sprintf("KNOWN-FINDING: property=%s %s [%s]", c.ID, kf.What, key)
+			for _, seen := range c.Known {
+				if seen == line {
+					return // printed once per run, however many jobs meet it
+				}
+			}
 			c.Known = append(c.Known, line)
 			fmt.Println(line)
 			return
